@@ -289,6 +289,10 @@ type List struct {
 	ListSep string
 }
 
+// NoKeyOnLookup makes the lists answer a lookup by key with the entry and no key, which node.Node allows
+// ("no need to trust implementation to return the key we passed to them")
+var NoKeyOnLookup bool
+
 func keyTexts(key []val.Value) []string {
 	out := make([]string, len(key))
 	for i, k := range key {
@@ -363,6 +367,9 @@ func (l *List) Next(r node.ListRequest) (node.Node, []val.Value, error) {
 		want := keyTexts(r.Key)
 		for _, row := range l.D.Rows {
 			if sameKey(row.Key, want) {
+				if NoKeyOnLookup {
+					return entry(row), nil, nil
+				}
 				return entry(row), r.Key, nil
 			}
 		}
